@@ -156,6 +156,11 @@ func EnumPathsSeed(start *ssa.BasicBlock, from *ssa.BasicBlock, seed map[ssa.Val
 					// both operands constant once phis are resolved along the path: decided
 					if bo, isBin := rv.(*ssa.BinOp); isBin {
 						bx, by := resolveVal(bo.X, blocks), resolveVal(bo.Y, blocks)
+						if IsNilConst(bx) && IsNilConst(by) && (bo.Op == token.EQL || bo.Op == token.NEQ) {
+							if (bo.Op == token.EQL) != w {
+								return // nil compared with nil: infeasible outcome
+							}
+						}
 						if kx, okx := ConstInt(bx); okx {
 							if ky, oky := ConstInt(by); oky {
 								var res, dec bool
